@@ -268,57 +268,89 @@ theorem subscriptStart_none (s s' : PState) (h : subscriptStart rec s = .ok none
     exact ⟨h.symm, by simpa using hc⟩
 
 omit Hrec in
+theorem bind_ok_inv {α β} {x : P α} {f : α → P β} {s s' : PState} {r : β}
+    (h : (x >>= f) s = .ok r s') : ∃ a s1, x s = .ok a s1 ∧ f a s1 = .ok r s' := by
+  simp only [bind_def, P.bind_apply] at h
+  cases hx : x s with
+  | ok a s1 => rw [hx] at h; exact ⟨a, s1, rfl, h⟩
+  | err => rw [hx] at h; cases h
+  | panic m => rw [hx] at h; cases h
+  | fuel => rw [hx] at h; cases h
+
+omit Hrec in
 theorem subscriptSlice_true (s s' : PState) (sl : Bool) (st sp : Option Expr)
     (hc : s.toks.head? = some .colon) (h : subscriptSlice rec s = .ok (sl, st, sp) s') :
     sl = true := by
   obtain ⟨ts, a, b⟩ := s
   have e : (ts.head? == some Tok.colon) = true := by simpa using hc
-  simp only [Parser.subscriptSlice, bind_def, P.bind_apply, headIs_apply, e, if_true] at h
-  repeat (first | (split at h <;> try (simp at h; done)) | skip)
-  all_goals (try (simp_all [P.bind_apply]))
+  unfold Parser.subscriptSlice at h
+  obtain ⟨hd, s0, h0, h⟩ := bind_ok_inv h
+  simp only [headIs_apply, Res.ok.injEq] at h0
+  obtain ⟨rfl, rfl⟩ := h0
+  simp only [e, if_true] at h
+  obtain ⟨_, s1, _, h⟩ := bind_ok_inv h
+  obtain ⟨stop, s2, _, h⟩ := bind_ok_inv h
+  obtain ⟨step, s3, _, h⟩ := bind_ok_inv h
+  simp only [pure_def, P.pure_apply, Res.ok.injEq, Prod.mk.injEq] at h
+  exact h.1.1.symm
 
 theorem G.parseSubscript (C : Cfg) (e : Expr) : G true (parseSubscript C rec e) := by
   unfold Parser.parseSubscript
   refine G.bind_ft (G.headIs _) (fun o => ?_)
-  refine G.bind_tf (by gstrict) (fun _ => ?_)
-  refine G.bind_ff (G.counters _ _ (fun _ => rfl)) (fun br => ?_)
-  refine G.ite (G.err _) ?_
-  intro s
-  have hA := G.subscriptStart Hrec s
-  simp only [bind_def, P.bind_apply]
-  cases hAs : Parser.subscriptStart rec s with
-  | err => simp [okRes]
-  | panic m => rw [hAs] at hA; simp [okRes] at hA
-  | fuel => rw [hAs] at hA; simp [okRes] at hA
-  | ok start s1 =>
-    rw [hAs] at hA
-    simp only [okRes, Bool.false_eq_true, if_false] at hA
-    have hB := G.subscriptSlice Hrec s1
-    cases hBs : Parser.subscriptSlice rec s1 with
+  dsimp only
+  have core : ∀ (u : Unit), G false (do
+      let brackets ← (fun s => .ok (s.brackets + 1) { s with brackets := s.brackets + 1 } : P Nat)
+      if brackets > C.maxBrackets then P.err
+      else do
+        let start ← Parser.subscriptStart rec
+        let (slice, stop, step) ← Parser.subscriptSlice rec
+        Parser.expect .rightBracket
+        let out ← (if slice then Pure.pure (.slice e start stop step o)
+          else match start with
+            | some s => Pure.pure (.getItem e s o)
+            | none => P.panic "parser.rs:277 expect(to have an expr)" : P Expr)
+        (fun s => .ok () { s with brackets := s.brackets - 1 } : P Unit)
+        Pure.pure out) := by
+    intro _
+    refine G.bind_ff (G.counters _ _ (fun _ => rfl)) (fun br => ?_)
+    refine G.ite (G.err _) ?_
+    intro s
+    have hA := G.subscriptStart Hrec s
+    simp only [bind_def, P.bind_apply]
+    cases hAs : Parser.subscriptStart rec s with
     | err => simp [okRes]
-    | panic m => rw [hBs] at hB; simp [okRes] at hB
-    | fuel => rw [hBs] at hB; simp [okRes] at hB
-    | ok r s2 =>
-      obtain ⟨sl, st, sp⟩ := r
-      rw [hBs] at hB
-      simp only [okRes, Bool.false_eq_true, if_false] at hB
-      have hC := G.expect Tok.rightBracket s2
-      cases hCs : Parser.expect Tok.rightBracket s2 with
+    | panic m => rw [hAs] at hA; simp [okRes] at hA
+    | fuel => rw [hAs] at hA; simp [okRes] at hA
+    | ok start s1 =>
+      rw [hAs] at hA
+      simp only [okRes, Bool.false_eq_true, if_false] at hA
+      have hB := G.subscriptSlice Hrec s1
+      cases hBs : Parser.subscriptSlice rec s1 with
       | err => simp [okRes]
-      | panic m => rw [hCs] at hC; simp [okRes] at hC
-      | fuel => rw [hCs] at hC; simp [okRes] at hC
-      | ok u s3 =>
-        rw [hCs] at hC
-        simp only [okRes, if_true] at hC
-        cases sl with
-        | true => simp [okRes, P.bind_apply]; omega
-        | false =>
-          cases start with
-          | some x => simp [okRes, P.bind_apply]; omega
-          | none =>
-            obtain ⟨rfl, hcol⟩ := subscriptStart_none s s1 hAs
-            have := subscriptSlice_true s s2 false st sp hcol hBs
-            cases this
+      | panic m => rw [hBs] at hB; simp [okRes] at hB
+      | fuel => rw [hBs] at hB; simp [okRes] at hB
+      | ok r s2 =>
+        obtain ⟨sl, st, sp⟩ := r
+        rw [hBs] at hB
+        simp only [okRes, Bool.false_eq_true, if_false] at hB
+        have hC := G.expect Tok.rightBracket s2
+        cases hCs : Parser.expect Tok.rightBracket s2 with
+        | err => simp [okRes]
+        | panic m => rw [hCs] at hC; simp [okRes] at hC
+        | fuel => rw [hCs] at hC; simp [okRes] at hC
+        | ok u s3 =>
+          rw [hCs] at hC
+          simp only [okRes, if_true] at hC
+          cases sl with
+          | true => simp [okRes, P.bind_apply]; omega
+          | false =>
+            cases start with
+            | some x => simp [okRes, P.bind_apply]; omega
+            | none =>
+              obtain ⟨rfl, hcol⟩ := subscriptStart_none s s1 hAs
+              have := subscriptSlice_true s s2 false st sp hcol hBs
+              cases this
+  refine G.ite ?_ ?_ <;> exact G.bind_tf (G.expect _) core
 
 end funs
 
